@@ -5,6 +5,7 @@
 extern "C" {
 #include "masking/ascon-masked-state.h"
 long tramp64(void *fn, void *a0, long a1, void *a2, unsigned long *report);
+void ascon_backend_free(ascon_state_t *state) __attribute__((weak));      // only the assembly back end defines it
 }
 #if defined(__x86_64__)
 static const unsigned long SENT[6] = { 0x1b1b1b1b1b1b1b1bUL, 0x2525252525252525UL, 0x3d3d3d3d3d3d3d3dUL, 0x4e4e4e4e4e4e4e4eUL, 0x5757575757575757UL, 0x6a6a6a6a6a6a6a6aUL };
@@ -13,6 +14,17 @@ static void abi_op(const Args &a) {
     if (d.size() != 40) fatal("asm.abi needs 40 bytes");
     unsigned long rep[7]; memset(rep, 0, sizeof rep);
     uint8_t out[40];
+    if (fn == "free") {
+        // ascon_backend_free(state): wipes scratch registers; callee-saved registers, the stack pointer and the state stay
+        if (!ascon_backend_free) fatal("this build has no ascon_backend_free");
+        Obj &o = obj_new(900, "perm", sizeof(ascon_state_t)); ascon_state_t *st = (ascon_state_t *)o.mem;
+        ascon_init(st); ascon_overwrite_bytes(st, &d[0], 0, 40);
+        tramp64((void *)ascon_backend_free, st, 0, 0, rep);
+        ascon_extract_bytes(st, out, 0, 40); ascon_free(st); obj_del(900);
+        bool regs = true; for (int i = 0; i < 6; ++i) if (rep[i] != SENT[i]) regs = false;
+        Ev ev("asm.free"); ev.s("arch", "x86-64").n("regs", regs).n("sp", rep[6] == 0).n("guard", memcmp(out, &d[0], 40) == 0 ? 1 : 0); ev.emit();
+        return;
+    }
     if (fn == "permute") {
         Obj &o = obj_new(900, "perm", sizeof(ascon_state_t)); ascon_state_t *st = (ascon_state_t *)o.mem;
         ascon_init(st); ascon_overwrite_bytes(st, &d[0], 0, 40);
